@@ -69,15 +69,15 @@ type lfUse struct {
 }
 
 type lfMask struct {
-	name         string
-	init         int // 0 zero (`var x uint64`), 1 state.VCC(), 2 other
-	updBit       int
-	updOther     int
-	readBit      int
-	readOther    int
-	sinkAfter    int
-	sinkInLoop   int
-	declaredIn   bool // declared inside the lane loop
+	name       string
+	init       int // 0 zero (`var x uint64`), 1 state.VCC(), 2 other
+	updBit     int
+	updOther   int
+	readBit    int
+	readOther  int
+	sinkAfter  int
+	sinkInLoop int
+	declaredIn bool // declared inside the lane loop
 }
 
 type lfCall struct {
@@ -174,9 +174,9 @@ type lanesWalker struct {
 	h        *lfHandler
 	fset     *token.FileSet
 	methods  map[string]*ast.FuncDecl
-	loopVar  string // "" outside a lane loop
-	loop     *lfLoop // current lane loop (nil outside)
-	brk      bool    // would a `break` here leave the lane loop?
+	loopVar  string          // "" outside a lane loop
+	loop     *lfLoop         // current lane loop (nil outside)
+	brk      bool            // would a `break` here leave the lane loop?
 	declIn   map[string]bool // names declared inside the current lane loop
 	execVar  string
 	ldsVar   string
